@@ -101,7 +101,13 @@ def run_twin(ns, fam, ops_in=None, seed=0, profile="basic", n_steps=30):
         wa, wb = World(ns, fam, tmp_a), World(ns, twin, tmp_b)
         ra = Runner(ns, wa)
         b_objs = []
+        b_handles = {}             # A-handle number -> the corresponding child object of the twin
         g = NoSetcapGen(rng, ra, fam, allow_setcap=not check_defer, **params)
+        # shared-memory strategy with two objects per file: an object re-points its data to the
+        # other object's container on every buffered load, so child handles obtained from it
+        # earlier are cut off (known finding C06:shared-memory-two-objects-child-handle); the
+        # generated programs of this configuration use the root objects only
+        g.roots_only = fam.buffered == "memory" and per_res == 2
         if ops_in is None:
             is_dict, ops = bgen.buf_setup(rng, g, objs_per_res=per_res)
             todo = None
@@ -198,7 +204,12 @@ def run_twin(ns, fam, ops_in=None, seed=0, profile="basic", n_steps=30):
                 # object re-points its data to the buffered data on every load)
                 path = attached_path(ns, tgt)
                 mem = root._to_base()
-                tb = None if path is None else b_target(ri, path, root._to_base())
+                if h[0] == "h" and int(h[1:]) in b_handles:
+                    tb = b_handles[int(h[1:])]          # the twin's own handle for the same child
+                    mirrored = True
+                else:
+                    tb = None if path is None else b_target(ri, path, root._to_base())
+                    mirrored = False
                 if tb is not None:
                     try:
                         if name == "dpopitem" and real_err is None:
@@ -220,6 +231,23 @@ def run_twin(ns, fam, ops_in=None, seed=0, profile="basic", n_steps=30):
                             viol.append((("C05", "C06"), "%s%r returned %r buffered but %r unbuffered" % (name, tuple(args), pa, pb)))
                         else:
                             stats["result_checks"] += 1
+                        # mirror newly returned children: the twin's result is the twin's handle
+                        def nodes(r):
+                            if isinstance(r, ns.SyncedCollection):
+                                return [r]
+                            if isinstance(r, (list, tuple)):
+                                return [x for x in r if isinstance(x, ns.SyncedCollection)]
+                            return []
+                        na, nb = nodes(real), nodes(exp)
+                        if len(na) == len(nb):
+                            for xa, xb in zip(na, nb):
+                                k = ra.hid.get(id(xa))
+                                if k is not None and k not in b_handles:
+                                    b_handles[k] = xb
+                    # a handle that stays attached in unbuffered execution must stay attached here
+                    if mirrored and real_err is None and exp_err is None and attached_path(ns, tb) is not None and path is None:
+                        viol.append((("C05", "C02", "C06"), "the child handle used by %s%r is still attached to its collection in unbuffered "
+                                     "execution but detached in buffered mode (changes through it no longer persist)" % (name, tuple(args))))
                 else:
                     stats["detached_calls"] += 1
             elif kind == "open":
@@ -307,9 +335,13 @@ def run_twin(ns, fam, ops_in=None, seed=0, profile="basic", n_steps=30):
             for _ in range(n_steps):
                 if viol:
                     break
-                if not g.stack and not g.pending and rng.random() < 0.06 and g.resources:
+                if not g.stack and not g.pending and rng.random() < (0.2 if profile == "readonly" else 0.08) and g.resources:
                     res, isd = rng.choice(g.resources)
                     op = g.next_ext(res, isd)
+                    cur = wa.read(res)
+                    if profile == "readonly" and cur is not MISSING and rng.random() < 0.5:
+                        from gen import reorder_keys
+                        op = ("ext", res, reorder_keys(rng, cur))
                 else:
                     op = g.step()
                 ops.append(op)
@@ -710,4 +742,220 @@ def unit_buf_conflict(args):
         v = v2[0] if v2 else viol[0]
         res["violations"].append(dict(props=list(v[0]), msg=v[1], ops=small, fam=fam.short, kind="conflict",
                                       extra=dict(seed=seed)))
+    return res
+
+
+# ------------------------------------------------------------------ I/O faults during a flush (C15, C07)
+
+def unit_buf_io_faults(args):
+    """a buffered flush in which writing one file fails with OSError (disk full / directory gone):
+    BufferedError must name that file, the other files are written, and afterwards the accounting
+    is exact: size 0 and empty buffer outside contexts; inside a context after a failing forced
+    flush the size equals the recomputed weight of what is still buffered; capacity restored"""
+    fam_index, is_dict, mode, seed = args
+    ns = env.load()
+    fam = ns.families[fam_index]
+    res = dict(kind="oracle", fam=fam_index, seed=seed, profile="iofault/%s" % mode, steps=1, stats={"scenarios": 1}, violations=[])
+
+    def bad(msg):
+        if not res["violations"]:
+            res["violations"].append(dict(props=["C15", "C07"], msg=msg, fam=fam.short, kind="iofault", sig="C15:iofault", ops=None,
+                                          extra=dict(fam_index=fam_index, is_dict=is_dict, mode=mode)))
+    try:
+        drive.reset_class_state(ns)
+        cls = fam.dict_cls if is_dict else fam.list_cls
+        J = ns.json_mod.JSONCollection
+        orig_save = J._save_to_resource
+        with drive.Scratch() as tmp:
+            w = World(ns, fam, tmp)
+            for i in range(3):
+                w.write(i, {"f": i} if is_dict else [i])
+            objs = [w.open(is_dict, i) for i in range(3)]
+            cap0 = cls.get_buffer_capacity()
+            failing = w.path(1)
+            state = {"armed": False}
+
+            def faulty(self):
+                if state["armed"] and self._filename == failing:
+                    raise OSError(28, "No space left on device")
+                return orig_save(self)
+
+            def mutate(o, v):
+                if is_dict:
+                    o["w"] = v
+                else:
+                    o.append(v)
+
+            def recompute():
+                if fam.buffered == "serialized":
+                    return sum(len(v["contents"]) for v in cls._buffer.values())
+                return sum(1 for v in cls._buffer.values() if v["modified"])
+            J._save_to_resource = faulty
+            try:
+                if mode == "exit":
+                    err = None
+                    try:
+                        with cls.buffer_backend():
+                            for i, o in enumerate(objs):
+                                mutate(o, "x" * (5 + i))
+                            state["armed"] = True
+                    except Exception as e:  # noqa: BLE001
+                        err = e
+                    state["armed"] = False
+                    if not isinstance(err, ns.errors.BufferedError):
+                        bad("leaving buffer_backend() with a failing write raised %r, not BufferedError" % (err,))
+                    elif {os.path.basename(p) for p in err.files} != {"r1.json"}:
+                        bad("BufferedError names %s, the file whose write failed is r1.json" % sorted(os.path.basename(p) for p in err.files))
+                elif mode == "object":
+                    err = None
+                    try:
+                        with objs[1].buffered:
+                            mutate(objs[1], "y")
+                            state["armed"] = True
+                    except Exception as e:  # noqa: BLE001
+                        err = e
+                    state["armed"] = False
+                    if not isinstance(err, OSError):
+                        bad("leaving obj.buffered with a failing write raised %r, not OSError" % (err,))
+                else:   # forced flush in the middle of a context
+                    cap = 40 if fam.buffered == "serialized" else 1
+                    with cls.buffer_backend(cap):
+                        mutate(objs[1], "z" * 8)
+                        state["armed"] = True
+                        try:
+                            mutate(objs[0], "q" * 30)
+                            mutate(objs[2], "q" * 30)
+                        except Exception:  # noqa: BLE001
+                            pass
+                        state["armed"] = False
+                        size, want = cls.get_current_buffer_size(), recompute()
+                        if size != want:
+                            bad("after a forced flush with a failing write the reported size is %d, the buffered files weigh %d" % (size, want))
+                        mutate(objs[0], 1)
+                # ---- afterwards
+                size = cls.get_current_buffer_size()
+                if size != 0 or cls._buffer:
+                    bad("after the contexts exited (one write failed with OSError) the reported size is %d with %d buffered files" % (size, len(cls._buffer)))
+                if cls.get_buffer_capacity() != cap0:
+                    bad("capacity is %d after the contexts exited, was %d" % (cls.get_buffer_capacity(), cap0))
+                if mode == "exit":
+                    for i in (0, 2):
+                        d = w.read(i)
+                        ok = (d.get("w") == "x" * (5 + i)) if is_dict else (d[-1] == "x" * (5 + i))
+                        if not ok:
+                            bad("the non-failing file r%d was not written: %r" % (i, d))
+                for i, o in enumerate(objs):
+                    mutate(o, "after")
+                    if not strict_eq(o(), w.read(i)):
+                        bad("after the failed flush a write through r%d's object did not reach the file" % i)
+            finally:
+                J._save_to_resource = orig_save
+        drive.reset_class_state(ns)
+    except Exception:  # noqa: BLE001
+        drive.reset_class_state(ns)
+        return dict(kind="oracle", fam=fam_index, seed=seed, profile="iofault", crash=traceback.format_exc())
+    return res
+
+
+# ------------------------------------------------------------------ child handles of objects sharing one file
+
+def c06_handle_cases():
+    for is_dict in (True, False):
+        for ctx_kind in ("object", "class"):
+            for owner in (0, 1):                      # whose child handle is exercised
+                for taken in ("before", "inside-first", "inside-after-touch"):
+                    for toucher in (0, 1):            # which object touches the buffer first
+                        for touch in ("read", "write"):
+                            yield is_dict, ctx_kind, owner, taken, toucher, touch
+
+
+def run_c06_handle(ns, fam, case):
+    """two objects a, b on one file, a child handle h obtained through one of them; inside a common
+    buffered state a write through h must be visible through both objects, a write through the other
+    object must be visible through h, the file after the exit holds both writes and h is still
+    attached afterwards.  Returns a list of (message, signature)."""
+    is_dict, ctx_kind, owner, taken, toucher, touch = case
+    out = []
+    drive.reset_class_state(ns)
+    cls = fam.dict_cls if is_dict else fam.list_cls
+    with drive.Scratch() as tmp:
+        w = World(ns, fam, tmp)
+        w.write(0, {"k": {"x": 1}, "z": 0} if is_dict else [{"x": 1}, 0])
+        objs = [w.open(is_dict, 0), w.open(is_dict, 0)]
+        key = "k" if is_dict else 0
+        zkey = "z" if is_dict else 1
+        other = 1 - owner
+        h = objs[owner][key] if taken == "before" else None
+        import contextlib
+        with contextlib.ExitStack() as st:
+            if ctx_kind == "object":
+                st.enter_context(objs[0].buffered)
+                st.enter_context(objs[1].buffered)
+            else:
+                st.enter_context(cls.buffer_backend())
+            if taken == "inside-first":
+                h = objs[owner][key]
+            if touch == "read":
+                objs[toucher][zkey]
+            else:
+                objs[toucher][zkey] = 7
+            if taken == "inside-after-touch":
+                h = objs[owner][key]
+            # a write through the other object is visible through the handle
+            objs[other][key]["x"] = 2
+            got = h["x"]
+            if got != 2:
+                out.append(("inside the common buffered state, after obj%d[%r]['x'] = 2 the child handle obtained through obj%d (%s) reads x = %r"
+                            % (other, key, owner, taken, got), "stale-read"))
+            # a write through the handle is visible through both objects
+            h["y"] = 5
+            for i in (0, 1):
+                got = objs[i]()[key] if is_dict else objs[i]()[0]
+                if got != {"x": 2, "y": 5}:
+                    out.append(("inside the common buffered state, after h['y'] = 5 through the child handle of obj%d (%s), obj%d shows %r at that position, not {'x': 2, 'y': 5}"
+                                % (owner, taken, i, got), "lost-write"))
+                    break
+        disk = w.read(0)
+        want = {"k": {"x": 2, "y": 5}, "z": 7 if touch == "write" else 0} if is_dict else [{"x": 2, "y": 5}, 7 if touch == "write" else 0]
+        if disk != want:
+            out.append(("after the common exit the file holds %r, not %r (handle of obj%d, %s)" % (disk, want, owner, taken), "file"))
+        objs[other][key]["x"] = 3
+        got = h()
+        if got != {"x": 3, "y": 5}:
+            out.append(("after the exit the child handle of obj%d (%s) is detached: it shows %r while the file position holds {'x': 3, 'y': 5}"
+                        % (owner, taken, got), "detached-after"))
+    return out
+
+
+def c06_handle_sig(fam, case, kinds):
+    is_dict, ctx_kind, owner, taken, toucher, touch = case
+    if fam.buffered == "memory" and taken in ("before", "inside-first") and owner != toucher:
+        # the handle belongs to the object whose data container is REPLACED by the shared one
+        return "C06:shared-memory:child-handle-of-rebound-object"
+    return "C06:child-handle:%s:%s:%s" % (fam.buffered, taken, "+".join(sorted(set(kinds))))
+
+
+def unit_c06_handles(args):
+    fam_index, seed = args
+    ns = env.load()
+    fam = ns.families[fam_index]
+    res = dict(kind="oracle", fam=fam_index, seed=seed, profile="c06/handles", steps=0, stats={}, violations=[])
+    n = 0
+    seen = set()
+    try:
+        for case in c06_handle_cases():
+            n += 1
+            v = run_c06_handle(ns, fam, case)
+            if v:
+                sig = c06_handle_sig(fam, case, [k for _, k in v])
+                if sig in seen:
+                    continue
+                seen.add(sig)
+                res["violations"].append(dict(props=["C06"], msg=v[0][0], fam=fam.short, kind="c06h", sig=sig, ops=None,
+                                              extra=dict(fam_index=fam_index, case=list(case))))
+    except Exception:  # noqa: BLE001
+        drive.reset_class_state(ns)
+        return dict(kind="oracle", fam=fam_index, seed=seed, profile="c06/handles", crash=traceback.format_exc())
+    res["steps"] = n
+    res["stats"] = {"scenarios": n}
     return res
